@@ -62,6 +62,12 @@ def _resolve(prog: Program, fi: FuncInfo, call: ast.Call) -> Optional[FuncInfo]:
         m = prog.resolve_method(fi.cls.name, f.attr)
         if m is not None and not m.is_property and not m.is_static and not m.is_classmethod and not fi.is_classmethod:
             return m
+    # ClassName.helper(...) where helper is a static or class method of a program class
+    if isinstance(f, ast.Attribute) and isinstance(f.value, ast.Name) and f.value.id in prog.classes \
+            and f.value.id not in _stores(fi.node) and f.value.id not in fi.params:
+        m = prog.resolve_method(f.value.id, f.attr)
+        if m is not None and (m.is_static or m.is_classmethod) and not m.is_property:
+            return m
     return None
 
 
@@ -69,7 +75,7 @@ def _inlinable(h: FuncInfo) -> Optional[str]:
     node = h.node
     if not isinstance(node, ast.FunctionDef):
         return "not a plain def"
-    if h.decorators:
+    if set(h.decorators) - {"staticmethod", "classmethod"}:
         return "decorated"
     a = node.args
     if a.vararg or a.kwarg or a.posonlyargs:
@@ -246,7 +252,7 @@ class _Inliner:
         args = list(call.args)
         if any(isinstance(x, ast.Starred) for x in args) or any(k.arg is None for k in call.keywords):
             raise _NoInline("star arguments")
-        if isinstance(call.func, ast.Attribute):            # bound method: receiver is the first parameter
+        if isinstance(call.func, ast.Attribute) and not h.is_static:   # bound / class method: receiver is the first parameter
             args = [call.func.value] + args
         if len(args) > len(names):
             raise _NoInline("too many positional arguments")
